@@ -355,7 +355,48 @@ func features(p *Program) []string {
 }
 
 // stableKey assembles the key of a finding on a minimised subject.
+// sameNameInPackage: two files of one go namespace declare a definition under the same IDL name (each file has its own
+// Scope.globals, so nothing keeps them apart): the known shared-go-namespace root cause, however the name is spelled.
+func sameNameInPackage(p *Program) bool {
+	type key struct{ ns, name string }
+	seen := map[key]int{}
+	for fi, f := range p.Files {
+		if f.GoNS == "" {
+			continue
+		}
+		var names []string
+		for _, d := range f.Typedefs {
+			names = append(names, d.Name)
+		}
+		for _, d := range f.Enums {
+			names = append(names, d.Name)
+		}
+		for _, d := range f.Structs {
+			names = append(names, d.Name)
+		}
+		for _, d := range f.Consts {
+			names = append(names, d.Name)
+		}
+		for _, d := range f.Services {
+			names = append(names, d.Name)
+		}
+		for _, n := range names {
+			k := key{f.GoNS, n}
+			if other, ok := seen[k]; ok && other != fi {
+				return true
+			}
+			seen[k] = fi
+		}
+	}
+	return false
+}
+
 func stableKey(f finding, s *subject, kept []string) string {
+	if s != nil && f.Kind == "compile" && f.Class == "redeclared-renamed" && sameNameInPackage(s.Prog) {
+		// `redeclared-renamed` is for a name that collides only after collision renaming inside ONE scope; here the
+		// identifier is simply declared by both files of the package
+		f.Class = "redeclared"
+	}
 	named, pkgnamed := false, false
 	for _, k := range kept {
 		if strings.HasPrefix(k, "file ") || strings.HasPrefix(k, "namespace ") {
